@@ -225,10 +225,35 @@ def sweep(prop, tier, seed, jobs, scratch):
         log('HARNESS-ERROR: violation %s did not reproduce in fresh interpreters (replay %s)'
             % (cls, path))
         exit_code = max(exit_code, 2)
-    if det_mismatch:
+    if det_mismatch and prop != 'C14':
       log('HARNESS-ERROR: event logs differ between hash-seed classes for run indices %s'
           % det_mismatch[:5])
-      exit_code = max(exit_code, 2) if prop != 'C14' else exit_code
+      exit_code = max(exit_code, 2)
+    if det_mismatch and prop == 'C14':
+      # For C14 this is the property itself: identical across runs and hash seeds.
+      i = det_mismatch[0]
+      a = det[('a', i)]
+      cls = 'C14/hash-seed-dependence'
+      doc = dict(a.doc)
+      doc['hash_seeds'] = {'sut': eng.pool.hash_seeds[a.classes[0]],
+                           'ref': eng.pool.hash_seeds[a.classes[1]]}
+      mdoc, n1 = orch.ddmin_ops(eng, doc, a.classes, cls,
+                                tester=orch.hashseed_tester(eng, doc, a.classes))
+      mdoc['expect'] = {'cls': cls, 'step': 0, 'detail': 'event logs differ between hash-seed classes'}
+      mdoc['minimised'] = {'from_ops': len(doc['ops']), 'to_ops': len(mdoc['ops']), 'executions': n1}
+      os.makedirs(os.path.join(OUT_DIR, 'replays'), exist_ok=True)
+      path = os.path.join(OUT_DIR, 'replays', '%s-%d-hashseed.json' % (prop, doc['run_seed']))
+      with open(path, 'w') as f:
+        f.write(core.dumps_json(mdoc))
+      fresh_viol, _ = orch.replay_fresh(prop, mdoc, scratch)
+      if any(x['cls'] == cls for x in fresh_viol):
+        log('VIOLATION property=%s replay=%s' % (prop, path))
+        log('  class=%s detail=%s' % (cls, [x for x in fresh_viol if x['cls'] == cls][0]['detail']))
+        exit_code = max(exit_code, 1) if exit_code != 2 else 2
+        reported += 1
+      else:
+        log('HARNESS-ERROR: hash-seed dependence did not reproduce in fresh interpreters (replay %s)' % path)
+        exit_code = 2
     if harness_notes:
       log('HARNESS-ERROR: %d runs raised inside the harness; first:\n%s'
           % (len(harness_notes), harness_notes[0][1]))
@@ -244,6 +269,9 @@ def sweep(prop, tier, seed, jobs, scratch):
     if stuck:
       log('warning: probes stuck at zero: %s' % stuck)
 
+    if reported > 0:
+      # a replay-confirmed violation is the answer; harness complaints above stay as warnings
+      exit_code = 1
     wall = time.time() - t_start
     real, stub = COMPONENTS[prop]
     ev = {
